@@ -21,8 +21,12 @@ LEVEL_TEXT = (
     "whether it changed anything) must feed the loop flag; (R2) the seeded source draws only from a private "
     "random.Random(seed); (R3) no call of a process-global RNG, clock, uuid/urandom, and no id()/hash() in a "
     "value position outside the allow-listed timing/logging sites; (R4) no function writes module-level or class-"
-    "level state (caches, counters) and no parameter default is a shared stateful object, so nothing carries over"
-    " from one search to the next in a process. Equality of two whole runs is an execution and is not decided."
+    "level state (caches, counters; a container created in a class body and modified through self unless every "
+    "instance's constructor replaces it) and no parameter default is a shared stateful object, (R5) no method of "
+    "a population initializer other than its constructor stores into the initializer, into a container it was "
+    "built around (the caller's list of programs) or into an element of one (may-mutate analysis with self as "
+    "owned root), so nothing carries over from one search to the next in a process. Equality of two whole runs is"
+    " an execution and is not decided."
 )
 
 # iteration sites over sets confirmed order-insensitive by reading: (function qualname, iterable text) -> reason
